@@ -571,6 +571,61 @@ func c20Run(c *Ctx, cs c20Case, count bool) {
 	} else {
 		c.Outcome("same")
 	}
+	// a second round on the same tree: every Condition that holds a Stack is given another expression through
+	// its own handle, an envelope is pushed next to what is there, and Reveal runs again - judged by the same
+	// oracles against the tree as it is now (what the first Reveal saw is history)
+	if cs.Beh != 0 || cs.Mutex > 1 {
+		return
+	}
+	edits := 0
+	var edit func(v any, depth int)
+	edit = func(v any, depth int) {
+		if st, ok := refAsStack(v); ok && st.IsInit() && depth < 40 {
+			for _, e := range contents(st) {
+				edit(e, depth+1)
+			}
+			return
+		}
+		if cd, ok := refAsCond(v); ok && cd.IsInit() {
+			if _, holds := refAsStack(cd.Expression()); holds {
+				edits++
+				if edits%2 == 1 {
+					cd.SetExpression(stackage.And().Push(fmt.Sprintf("second-%d-a", edits), fmt.Sprintf("second-%d-b", edits)))
+				} else {
+					cd.SetExpression(fmt.Sprintf("second-%d-plain", edits))
+				}
+			} else {
+				edit(cd.Expression(), depth+1)
+			}
+		}
+	}
+	p2 := func() (msg string) {
+		defer func() {
+			if r := recover(); r != nil {
+				msg = fmt.Sprint(r)
+			}
+		}()
+		edit(root, 0)
+		root.Push(stackage.And().Push(stackage.Cond("late", stackage.Eq, "v")), stackage.Or().Push(stackage.And().Push("late-a", "late-b")))
+		before = takeSnap(root)
+		root.Reveal()
+		after = takeSnap(root)
+		return ""
+	}()
+	if p2 != "" {
+		c.Violation("second-round:panic", fmt.Sprintf("after a first Reveal, new expressions for the Conditions and two more envelopes, the second Reveal on %s panicked: %s", cs.Tree, p2), cs, size)
+		return
+	}
+	var lb2, la2 []string
+	before.leaves(&lb2)
+	after.leaves(&la2)
+	if strings.Join(lb2, "|") != strings.Join(la2, "|") {
+		c.Violation("second-round:leaf-sequence-changed", fmt.Sprintf("after a first Reveal on %s the Conditions were given other expressions and two envelopes were pushed; the second Reveal changed the leaf sequence: before %v after %v", cs.Tree, lb2, la2), cs, size)
+		return
+	}
+	if !before.header(after) || !reach(before, after, false) {
+		c.Violation("second-round:not-an-unwrapping", fmt.Sprintf("second Reveal on %s: before %s after %s", cs.Tree, before, after), cs, size)
+	}
 }
 
 func c20Trees(c *Ctx) []rnode {
@@ -699,6 +754,21 @@ func c20Trees(c *Ctx) []rnode {
 					cur = h
 				}
 				trees = append(trees, rnode{T: "S", K: "AND", Kids: []rnode{cur}}, rnode{T: "S", K: "OR", Kids: []rnode{{T: "leaf"}, cur}})
+			}
+		}
+	}
+	// a Condition whose expression is a Condition that holds a Stack (two and three Conditions deep), in the
+	// first slot next to an envelope, and elsewhere
+	for _, bottom := range [][]rnode{{{T: "leaf"}, {T: "leaf"}}, {{T: "S", K: "AND", Kids: []rnode{{T: "leaf"}}}}, {{T: "C"}, {T: "leaf"}}} {
+		for _, exT := range []string{"S", "A"} {
+			st := rnode{T: exT, K: "OR", Kids: bottom}
+			inner := rnode{T: "C", Ex: &st}
+			outer := rnode{T: "C", Ex: &inner}
+			outer3 := rnode{T: "C", Ex: &outer}
+			env := rnode{T: "S", K: "AND", Kids: []rnode{{T: "C"}}}
+			for _, cc := range []rnode{outer, outer3} {
+				trees = append(trees, rnode{T: "S", K: "AND", Kids: []rnode{cc, env}}, rnode{T: "S", K: "OR", Kids: []rnode{env, cc}}, rnode{T: "S", K: "AND", Kids: []rnode{cc}},
+					rnode{T: "S", K: "LIST", Kids: []rnode{{T: "S", K: "AND", Kids: []rnode{cc}}, {T: "leaf"}}}, rnode{T: "S", K: "AND", Kids: []rnode{cc, {T: "leaf"}, env}})
 			}
 		}
 	}
